@@ -19,6 +19,8 @@ class Scope:
         self.resolver: Resolver = resolver
         self.table: Table | None = None
         self.labels: dict[str, int] = {}
+        # symbols that will be defined by the symbol pass (deferred macro arguments), they hide outer definitions.
+        self.deferred_symbols: set[str] = set()
 
     def add_label(self, label: str, value: Address) -> None:
         self.labels[label] = value.logical_value
@@ -61,6 +63,8 @@ class Scope:
         if self.parent:
             if symbol in self.symbols or symbol in self.code_symbols:
                 return self[symbol]
+            elif symbol in self.deferred_symbols:
+                raise SymbolNotDefined(symbol)
             else:
                 return self.parent.value_for(symbol)
         else:
